@@ -1,5 +1,6 @@
 import TexcraftModel.Util.Proto
 import TexcraftModel.Model.C04
+import TexcraftModel.Model.C04Algo
 
 /-! Driver for C04. One request kind:
 
@@ -13,8 +14,11 @@ import TexcraftModel.Model.C04
   number `L`, previous fitness class `pf`, break `b`, and the logged badness, penalty, demerits,
   artificial flag.
 
-Reply: `verdict=<ok|skip:reason|bad:reason> cand=<ok|bad:index:what> best=<…> dpall=<…> total=<…>`.
-The verdict is the property itself, decided with the proved-optimal reference `dp`. -/
+Reply: `verdict=<ok|skip:reason|bad:reason> cand=<ok|bad:index:what> algo=<none|[b1,…]|skip:reason> trace=<-|e:l:f:t:h:p,…|skip:reason> thm=<n/a|ok:optimal|ok:loose|bad:…> best=<…> dpall=<…> total=<…>`.
+The verdict is the property itself, decided with the proved-optimal reference `dp`.
+`algo=` is the answer of the transcription `C04.algo` (Model/C04Algo.lean) of
+`break_line_single_attempt` on the same instance, looseness and `force_solution`; the harness
+demands that it equals the real result exactly (stream `algo`). -/
 open C04 Proto
 
 namespace DrvC04
@@ -64,22 +68,6 @@ def decInst (c : Cur) : Option (Inst × Cur) :=
 def showOpt : Option Int → String
   | none => "none"
   | some d => toString d
-
-def abs (i : Int) : Int := if i < 0 then -i else i
-
-/-- A conservative bound on any total the implementation can form (it works in `i32` with
-`AWFUL_BAD = 2^30 − 1` as infinity): instances that could exceed it are outside the domain. -/
-def demBound (x : Inst) : Int :=
-  let lines : Int := (legalBreaks x).length
-  let capTol := if x.p.tolerance < 10001 then x.p.tolerance else 10001
-  let d0 := abs x.p.linePenalty + (if capTol < 0 then 0 else capTol)
-  let d1 := if 10000 ≤ d0 then 10000 else d0
-  let maxPen : Int := (legalBreaks x).foldl (fun m b =>
-    match breakInfo x b with
-    | some (p, _) => if -10000 < p ∧ m < abs p then abs p else m
-    | none => m) 0
-  let perLine := d1 * d1 + maxPen * maxPen + abs x.p.finalHyphenDemerits + abs x.p.doubleHyphenDemerits + abs x.p.adjDemerits
-  lines * perLine + abs x.p.adjDemerits
 
 def fitOf (i : Int) : Fit := Fit.ofIdx i.toNat
 
@@ -161,6 +149,57 @@ def judge (force : Bool) (q : Int) (x : Inst) (all : List (Option Int)) (res : O
                else if some t = all[target]?.join then "ok" else "bad:suboptimal-for-line-count")
         | _ => "skip:ambiguous-best-line-count"
 
+/-- The model's answer `a = algo x q force`, or why the comparison is not made (outside the
+modelled domain). -/
+def algoField (x : Inst) (a : Option (List Nat)) : String :=
+  if x.p.widths.isEmpty then "skip:no-widths"
+  else if !discOK x then "skip:disc-malformed"
+  else
+    match a with
+    | none => "none"
+    | some bs => "[" ++ ",".intercalate (bs.map toString) ++ "]"
+
+/-- The active nodes the model creates, in creation order, as
+`elem:line:fitness:total:hyphenated:previous_elem` (previous_elem −1 = start of the paragraph);
+the harness builds the same string from the real run's `log_new_active_node` calls (stream
+`trace`). -/
+def traceField (force : Bool) (q : Int) (x : Inst) : String :=
+  if x.p.widths.isEmpty then "skip:no-widths"
+  else if !discOK x then "skip:disc-malformed"
+  else
+    let tr := traceOf x q force
+    if tr.isEmpty then "-"
+    else ",".intercalate (tr.map fun ν =>
+      let prev : Int := match ν.path with | _ :: p :: _ => (p : Int) | _ => -1
+      let el : Int := match ν.path with | e :: _ => (e : Int) | [] => -1
+      s!"{el}:{ν.line}:{ν.fit.toNat}:{ν.total}:{if ν.hyph then 1 else 0}:{prev}")
+
+/-- Do the hypotheses of `C04.algo_optimal_dec` (looseness 0) resp. `C04.algo_loose` (looseness
+≠ 0) hold for this request? Then the theorem predicts the model's answer `a = algo x q false`
+from the reference vector `all = dpAll x`: `none` iff `best = none`, else total = `best`; resp.
+exactly `Lb + q` lines with total `dp (Lb + q)`, `Lb` the least best line count, or `none`.
+`thm=` is `n/a` outside the hypotheses, else `ok:optimal` / `ok:loose`, or `bad:…` if the
+model's answer contradicts the theorem (impossible while the theorems are proved about the same
+`algo`; a sanity stream). -/
+def thmField (force : Bool) (q : Int) (x : Inst) (all : List (Option Int)) (a : Option (List Nat)) : String :=
+  if force ∨ x.p.widths.isEmpty ∨ !discOK x ∨ !monotone x ∨ ¬ demBound x < awfulBad then "n/a"
+  else if q = 0 then
+    match a, minOpt all with
+    | none, none => "ok:optimal"
+    | some bs, some d => if total x bs = some d then "ok:optimal" else "bad:optimal"
+    | _, _ => "bad:optimal"
+  else
+    match (bestCountsOf all).head? with
+    | none => if a.isNone then "ok:loose" else "bad:loose"
+    | some lb =>
+      let tgt : Int := (lb : Int) + q
+      let want : Option Int := if tgt < 0 then none else all[tgt.toNat]?.join
+      match a, want with
+      | none, none => "ok:loose"
+      | some bs, some d =>
+        if bs.length = tgt.toNat ∧ total x bs = some d then "ok:loose" else "bad:loose"
+      | _, _ => "bad:loose"
+
 def handle (line : String) : String :=
   match words line with
   | "judge" :: ws =>
@@ -178,11 +217,12 @@ def handle (line : String) : String :=
           match decCands m.toNat t' with
           | some cs =>
             let all := dpAllFast x
+            let a := algo x q (force != 0)
             let v := judge (force != 0) q x all res
             let tot := match res with | some s => showOpt (total x s) | none => "-"
             let dpall := ",".intercalate (all.map showOpt)
             let legal := ",".intercalate ((legalBreaks x).map toString)
-            s!"verdict={v} cand={checkCands x cs} best={showOpt (minOpt all)} total={tot} dpall={dpall} legal={legal}"
+            s!"verdict={v} cand={checkCands x cs} algo={algoField x a} trace={traceField (force != 0) q x} thm={thmField (force != 0) q x all a} best={showOpt (minOpt all)} total={tot} dpall={dpall} legal={legal}"
           | none => "bad-request:cands"
         | _ => "bad-request:result"
       | _ => "bad-request:inst"
